@@ -77,3 +77,29 @@ Definition plain_core (q : query) : bool :=
 (** the rows a plain RETURN hands out for a list of bindings *)
 Definition project_envs (st : store) (items : list lexpr) (es : list env) : list (list val) :=
   map (fun en => map (item_val st en) items) es.
+
+(** * The plans the front ends really build (gql_translator.rs / cypher_translator.rs), clause
+    placement included.  GQL: Return(Sort(Limit(Skip(Filter(chain))))) — SKIP/LIMIT end up below
+    ORDER BY (C08-K6); Cypher: Limit(Skip(Sort(Return(Filter(chain))))) — ORDER BY ends up above
+    RETURN (C08-K9).  Aggregating returns: Aggregate(Filter(chain)). *)
+Definition sort_keys (ks : list okey) : list (lexpr * bool) :=
+  flat_map (fun k => match k with OEnv e desc => [(e, desc)] | OCol _ _ => [] end) ks.
+Definition opt_skip (s : option nat) (p : lop) : lop := match s with Some n => LSkip n p | None => p end.
+Definition opt_limit (s : option nat) (p : lop) : lop := match s with Some n => LLimit n p | None => p end.
+Definition opt_sort (ks : list okey) (p : lop) : lop := match ks with [] => p | _ => LSort (sort_keys ks) p end.
+Definition ret_items (items : list lexpr) : list (lexpr * option string) := map (fun e => (e, @None string)) items.
+Definition gql_plan_of (q : query) : lop :=
+  let body := where_plan (q_where q) (chain_plan (q_pat q)) in
+  match q_ret q with
+  | RPlain items d => LReturn (ret_items items) d (opt_sort (q_order q) (opt_limit (q_limit q) (opt_skip (q_skip q) body)))
+  | RAgg keys aggs => LAggregate keys aggs body
+  end.
+Definition cypher_plan_of (q : query) : lop :=
+  let body := where_plan (q_where q) (chain_plan (q_pat q)) in
+  match q_ret q with
+  | RPlain items d => opt_limit (q_limit q) (opt_skip (q_skip q) (opt_sort (q_order q) (LReturn (ret_items items) d body)))
+  | RAgg keys aggs => LAggregate keys aggs body
+  end.
+(** what the engine hands out for a plan *)
+Definition plan_rows (st : store) (p : lop) : res (list (list val)) :=
+  match sem_ops st p with Ok t => Ok (out_rows t) | Err => Err end.
